@@ -64,7 +64,8 @@ def s_text(s, ind=0, tick=False) -> str:
             out += p + "else:\n" + blk(s[3])
         return out
     if k == "for":
-        out = p + f"for _x in {ITER_TXT[s[1]]}:\n" + blk(s[2], loop=True)
+        it_txt = ITER_TXT[s[1]] if isinstance(s[1], str) else x_text(s[1][1])
+        out = p + f"for _x in {it_txt}:\n" + blk(s[2], loop=True)
         if s[3]:
             out += p + "else:\n" + blk(s[3])
         return out
@@ -97,7 +98,8 @@ def s_coq(s) -> str:
     if k == "while":
         return f"(SWhile {s[1]} {B(s[2])} {B(s[3])})"
     if k == "for":
-        return f"(SFor {s[1]} {B(s[2])} {B(s[3])})"
+        it = s[1] if isinstance(s[1], str) else f"(classify {x_coq(s[1][1])})"
+        return f"(SFor {it} {B(s[2])} {B(s[3])})"
     if k == "with":
         return f"(SWith {B(s[1])})"
     if k == "try":
@@ -110,6 +112,164 @@ def s_coq(s) -> str:
 def valid_try(s):
     # `else` needs a handler; a try needs a handler or a finally (the printer adds an empty finally)
     return not (s[3] and not s[2])
+
+
+# ---------------------------------------------------------------------------------------------
+# iterable expressions of `for` loops (IterModel.v): the iterable of a ("for", it, body, orelse) term is either
+# one of the three abstract tags above or ("x", term) with term one of
+#   ("lit", "list"|"tuple"|"set"|"str", [items])  ("range", [ints])  ("zip", [terms])  ("opaque",)
+#   ("enumerate"|"reversed"|"sorted"|"list"|"tuple"|"set"|"iter", term)
+
+
+def x_text(x) -> str:
+    k = x[0]
+    if k == "lit":
+        items = x[2]
+        if x[1] == "str":
+            return repr("".join(items))
+        body = ", ".join(repr(i) for i in items)
+        if x[1] == "list":
+            return "[" + body + "]"
+        if x[1] == "set":
+            assert items
+            return "{" + body + "}"
+        return "(" + body + ("," if len(items) == 1 else "") + ")"
+    if k == "range":
+        return "range(" + ", ".join(str(i) for i in x[1]) + ")"
+    if k == "zip":
+        return "zip(" + ", ".join(x_text(e) for e in x[1]) + ")"
+    if k == "opaque":
+        return "it()"
+    return f"{k}({x_text(x[1])})"
+
+
+def v_coq(v) -> str:
+    if isinstance(v, bool):
+        raise ValueError(v)
+    if isinstance(v, int):
+        return f"(VInt {common.gz(v)})"
+    if isinstance(v, str) and len(v) == 1:
+        return f"(VChr {ord(v)})"
+    if isinstance(v, tuple):
+        out = "VUnit"
+        for e in reversed(v):
+            out = f"(VPair {v_coq(e)} {out})"
+        return out
+    raise ValueError(v)
+
+
+def x_coq(x) -> str:
+    k = x[0]
+    if k == "lit":
+        kind = {"list": "KList", "tuple": "KTuple", "set": "KSet", "str": "KStr"}[x[1]]
+        return f"(XLit {kind} {glist(x[2], v_coq)})"
+    if k == "range":
+        return f"(XRange {glist(x[1], common.gz)})"
+    if k == "zip":
+        if len(x[1]) == 0:
+            return "XZip0"
+        if len(x[1]) == 1:
+            return f"(XZip1 {x_coq(x[1][0])})"
+        return f"(XZip2 {x_coq(x[1][0])} {x_coq(x[1][1])})"
+    if k == "opaque":
+        return "XOpaque"
+    return "(X" + k.capitalize() + " " + x_coq(x[1]) + ")"
+
+
+X_BASES = [("lit", "list", []), ("lit", "list", [1]), ("lit", "list", [2, 1]), ("lit", "tuple", []),
+           ("lit", "tuple", [1, 2]), ("lit", "str", []), ("lit", "str", ["a", "b"]), ("lit", "set", [1, 2]),
+           ("lit", "set", [3, 3]), ("lit", "list", ["b", "a"]),
+           ("range", [0]), ("range", [2]), ("range", [0, 0]), ("range", [1, 3]), ("range", [3, 1]),
+           ("range", [3, 1, -1]), ("range", [0, 4, 0]), ("range", [0, 5, 2]), ("range", [1, 2, 3, 4]),
+           ("zip", []), ("opaque",)]
+X_PARTNERS = [("lit", "list", []), ("lit", "tuple", [1, 2]), ("range", [0]), ("lit", "str", ["a", "b"])]
+X_WRAPPERS = ["enumerate", "reversed", "sorted", "list", "tuple", "set", "iter"]
+
+
+def int_items(x) -> bool:
+    """items are small non-negative ints (the only sets whose iteration order the model commits to)"""
+    k = x[0]
+    if k == "lit":
+        return all(isinstance(i, int) for i in x[2])
+    if k == "range":
+        return len(x[1]) in (1, 2, 3) and all(0 <= i < 8 for i in x[1][:2])
+    if k in ("reversed", "sorted", "list", "tuple", "set", "iter"):
+        return int_items(x[1])
+    return False
+
+
+def x_wrap(x):
+    for w in X_WRAPPERS:
+        if w == "set" and not int_items(x):
+            continue
+        yield (w, x)
+    yield ("zip", [x])
+    for p in X_PARTNERS:
+        yield ("zip", [x, p])
+        yield ("zip", [p, x])
+
+
+def x_terms(depth2_bases):
+    out = list(X_BASES)
+    d1 = [w for b in X_BASES for w in x_wrap(b)]
+    out += d1
+    for b in depth2_bases:
+        for w1 in x_wrap(b):
+            out += list(x_wrap(w1))
+    seen, res = set(), []
+    for x in out:
+        key = x_text(x)
+        if key not in seen:
+            seen.add(key)
+            res.append(x)
+    return res
+
+
+def iter_shapes(run):
+    """`for` loops over every iterable form, empty and non-empty, with returning / raising bodies"""
+    d2 = [("lit", "list", []), ("lit", "tuple", [1, 2]), ("lit", "str", []), ("range", [0]), ("range", [1, 3]),
+          ("lit", "set", [1, 2])]
+    xs = x_terms(d2)
+    bodies = [[("return",)], [("raise",)], [("call",), ("return",)], [("pass",)], [("if", "TUnknown", [("break",)], []), ("return",)]]
+    shapes = []
+    for i, x in enumerate(xs):
+        deep = x[0] not in ("lit", "range", "opaque") and len(x_text(x)) > 28
+        for j, b in enumerate(bodies):
+            if deep and j > 1:
+                continue
+            shapes.append(("for", ("x", x), b, [("call",)] if (i + j) % 3 == 0 else []))
+    return xs, shapes
+
+
+def check_elements(wd, xs):
+    """CPython validation of IterModel.elements: list(<expression>) evaluated by the interpreter"""
+    cases = []
+    for x in xs:
+        txt = x_text(x)
+        try:
+            val = list(eval(txt, {"it": lambda: (_ for _ in ()).throw(NameError("it"))}))  # noqa: S307
+            exp = "(Some " + glist(val, v_coq) + ")"
+        except Exception:  # noqa
+            exp = "None"
+        cases.append((txt, f"({x_coq(x)}, {exp})"))
+    files = []
+    for k in range(0, len(cases), 500):
+        p = wd / f"elems_{k // 500}.v"
+        body = ";\n ".join(c for _, c in cases[k:k + 500])
+        p.write_text("From Coq Require Import List Bool ZArith.\nImport ListNotations.\n"
+                     "Require Import Pyrefact.Base Pyrefact.FlowModel Pyrefact.IterModel.\nOpen Scope Z_scope.\n"
+                     f"Definition cases : list (iterexp * option (list val)) := [\n {body}\n].\n"
+                     "Eval vm_compute in (bad_idx elements_ok cases).\n")
+        files.append(p)
+    results = common.run_case_files(files)
+    bad = []
+    for n, p in enumerate(files):
+        rc, txt = results[p]
+        idx = common.parse_nat_list(txt) if rc == 0 else None
+        if idx is None:
+            raise RuntimeError(f"model evaluation failed for {p.name}: {txt[-1500:]}")
+        bad += [cases[n * 500 + i][0] for i in idx]
+    return bad
 
 
 # ---------------------------------------------------------------------------------------------
@@ -303,8 +463,8 @@ def explore(s, suppress: bool, max_len=9, max_ticks=5):
             pass
         except _E:
             seen.add("E")
-        except AssertionError:
-            seen.add("E")
+        except (AssertionError, TypeError, ValueError):
+            seen.add("E")        # incl. an iterable expression that raises when evaluated (range(0, 4, 0))
     return seen, runs
 
 
@@ -381,7 +541,7 @@ def behaviours(src, suppress: bool, max_len=8, max_ticks=4):
                 stack.append(script + [1])
         except _Diverge:
             pass
-        except (_E, AssertionError):
+        except (_E, AssertionError, TypeError, ValueError):
             seen.add((tuple(log), "E"))
     return seen
 
@@ -404,6 +564,17 @@ FIXED_FLOW_WITNESSES = [
     ("while", "TFalse", [("call",)], [("raise",)]),
     ("while", "TFalse", [("raise",)], [("return",)]),
     ("while", "TFalse", [("call",)], []),
+]
+
+
+# loops that run zero times over an iterator object (enumerate / zip / reversed are truthy when empty)
+FIXED_ITER_WITNESSES = [
+    ("for", ("x", ("enumerate", ("lit", "tuple", []))), [("return",)], []),
+    ("for", ("x", ("reversed", ("lit", "list", []))), [("raise",)], []),
+    ("for", ("x", ("zip", [("lit", "str", ["a", "b"]), ("range", [0])])), [("return",)], []),
+    ("for", ("x", ("zip", [("lit", "tuple", []), ("range", [2])])), [("return",)], [("call",)]),
+    ("for", ("x", ("zip", [])), [("return",)], []),
+    ("for", ("x", ("enumerate", ("lit", "list", [1]))), [("return",)], []),
 ]
 
 
@@ -461,7 +632,8 @@ def model_eval(wd, stmts, tag):
         p = wd / f"{tag}_{k // SH}.v"
         body = ";\n ".join(s_coq(s) for s in shard)
         p.write_text("From Coq Require Import List Bool.\nImport ListNotations.\n"
-                     "Require Import Pyrefact.Base Pyrefact.FlowModel.\n"
+                     "From Coq Require Import ZArith.\n"
+                     "Require Import Pyrefact.Base Pyrefact.FlowModel Pyrefact.IterModel.\n"
                      f"Definition cases : list stmt := [\n {body}\n].\n"
                      "Definition bit (b : bool) : nat := if b then 1 else 0.\n"
                      "Definition enc (s : stmt) : list nat := map bit ([is_blocking s PNone; is_blocking s PFor; "
@@ -490,8 +662,10 @@ def check(run: common.Run):
     mods = common.import_impl()
     rnd = random.Random(run.seed)
 
-    stmts = [s for s in itertools.chain(depth1(), loops_with_compound_child()) if compiles(s)]
+    xs, xshapes = iter_shapes(run)
+    stmts = [s for s in itertools.chain(depth1(), loops_with_compound_child(), xshapes) if compiles(s)]
     n_exh = len(stmts)
+    elements_bad = check_elements(wd, xs)
     nrand = 3000 if run.tier == "quick" else 40000
     for _ in range(nrand):
         s = rand_stmt(rnd, rnd.choice([2, 2, 3]))
@@ -499,6 +673,7 @@ def check(run: common.Run):
             continue
         stmts.append(s)
     hist = Counter(s[0] for s in stmts)
+    hist["for-over-iterable-expression"] = len(xshapes)
 
     model = model_eval(wd, stmts, "flow")
     disagreements, sem_bad, prop_fail, known_hits = [], [], [], []
@@ -538,7 +713,9 @@ def check(run: common.Run):
     # ---- end to end through delete_unreachable_code (deterministic slice of the exhaustive shapes)
     cand = [s for s, m in zip(stmts[:n_exh], model[:n_exh]) if any(m["flags"][:3]) or has_const_test(s)]
     step = 13 if run.tier == "quick" else 1
-    e2e_fail, e2e_known, n_e2e, n_e2e_rw = flow_end_to_end(run, mods, FIXED_FLOW_WITNESSES + cand[::step])
+    xcand = [s for s in xshapes if s[2] in ([("return",)], [("raise",)])]
+    xcand = FIXED_ITER_WITNESSES + (xcand[::5] if run.tier == "quick" else xcand)
+    e2e_fail, e2e_known, n_e2e, n_e2e_rw = flow_end_to_end(run, mods, FIXED_FLOW_WITNESSES + xcand + cand[::step])
     known_hits += [{"stmt": k["stmt"], "observed": k["only_after"]} for k in e2e_known]
 
     # ---- known findings
@@ -569,6 +746,10 @@ def check(run: common.Run):
             run.violation({"kind": "correspondence", "kernel": "K5 FlowModel.is_blocking/may_leave", **d,
                            "explanation": "model and implementation disagree; no execution contradicting the "
                                           "implementation's verdict was found"}, False)
+    for eb in elements_bad[:3]:
+        run.violation({"kind": "semantics-validation", "kernel": "K5 IterModel.elements", "stmt": f"for _x in {eb}: pass",
+                       "explanation": "list(<iterable expression>) evaluated by CPython differs from the reference "
+                                      "semantics IterModel.elements (trusted definition)"}, False)
     for sb in sem_bad[:3]:
         run.violation({"kind": "semantics-validation", "kernel": "K5 FlowModel.outcomes", **sb,
                        "explanation": "CPython exhibits an outcome the reference semantics excludes: the semantics "
@@ -592,6 +773,7 @@ def check(run: common.Run):
         exhaustive=False, exhaustive_part=n_exh, random_part=len(stmts) - n_exh, histogram=dict(hist),
         correspondence_disagreements=len(disagreements), semantics_violations=len(sem_bad),
         property_oracle_failures=len(prop_fail), model_imprecision_N=imprecise,
+        iterable_expressions=len(xs), iterable_loop_shapes=len(xshapes), elements_mismatches=len(elements_bad),
         e2e_unreachable_cases=n_e2e, e2e_unreachable_rewritten=n_e2e_rw, e2e_unreachable_failures=len(e2e_fail),
         trusted_base=common.TRUSTED_BASE_COMMON + [
             "FlowModel.outcomes is a definition (reference semantics); validated on every run against CPython by "
